@@ -9,7 +9,8 @@ CFG = dict(
     assumptions=["byte strings <= MaxSlice, string lists <= 2^44 entries (wfv)", "underlying readers never return (0, nil) and never return data together with an error"],
     level_text="Seven theorems over the Gallina model of data.Chunk's typed reader, data.NewReader's stream reader and the shared encoding: round trip for every value "
                "sequence (flat, and stream for EVERY split into non-empty short reads), agreement of the two readers on ALL byte strings, every proper prefix of an encoding "
-               "is an error (never a fabricated value), reads are prefix-determined. Tied to /repo by ~3k generated cases per run: both real writers (bytes identical, "
-               "and equal to the model's by length+checksum), both real readers on full, truncated (every offset for short encodings) and forged inputs.",
+               "is an error (never a fabricated value), reads are prefix-determined. Tied to /repo by ~5k model cases (~7.7k evaluations) per run: both real writers (bytes identical, "
+               "and equal to the model's by length+checksum), all four writer x reader pairings, both real readers on full, truncated (every offset for short encodings, also "
+               "as sub-slices with spare capacity) and forged inputs.",
     level_note="Proof is about the model; correspondence is differential testing (distribution in the evidence). Writers are compared with the model only by the run. No axioms.",
 )
